@@ -220,6 +220,19 @@ def run_shard(shard, ctx):
             ctx.node()
             if ctx.out_of_time():
                 return
+            # sustains that make the two events END on one tick (a held note re-struck at its release point, or
+            # inside an extended sustain with a common release): still two ticks, two events
+            for gap in (1, 2, 100):
+                for s1, s2 in ((gap, 0), (gap + 2, 2), (gap + 5, 5)):
+                    body = note_lines(0, a, (), s1) + note_lines(gap, b, (), s2)
+                    text = mk(tracks={"ExpertSingle": body})
+                    expected = [[0, lanes_vector(a)], [gap, lanes_vector(b)]]
+                    got = e1.run_probe(probe, text)
+                    ctx.case(text, sample=lambda: dict(body=body, expected=expected))
+                    ctx.evaluations += 1
+                    ctx.hist["common_release"] += 1
+                    if got != expected:
+                        e1.report(ctx, "note-events", text, PROBE_SRC, [expected], got, "note events (tick, lanes) differ from the lines written (both notes released on one tick): body=%r" % (body,))
             for gap in (1, 2, 100):
                 for fa in FLAGS[:2]:
                     for fb in FLAGS:
